@@ -58,12 +58,18 @@ type libTree struct {
 	// tree, when set, is handed out instead: a tree of ordinary cells (the input of the case, which the
 	// decoder then sees as a single library cell)
 	tree *ref.RCell
+	// again: the resolver answers every hash with a library cell once more (a careless or hostile library
+	// source). Nothing says what that should decode to; it has to come to an end like everything else.
+	again bool
 }
 
 // cells is the number of cells a resolved library unfolds to.
 func (l *libTree) cells() int {
 	if l == nil {
 		return 0
+	}
+	if l.again {
+		return 1
 	}
 	if l.tree != nil {
 		return unfolded(l.tree, maxUnfold)
@@ -72,6 +78,14 @@ func (l *libTree) cells() int {
 }
 
 func (l *libTree) build() (*boc.Cell, error) {
+	if l.again {
+		h := append(append([]byte{}, l.root.Packed()...), make([]byte, 32)...)[:32]
+		cells, err := boc.DeserializeBoc(ref.SerializeBOC([]*ref.RCell{ref.NewRCell(ref.Bits{}.AppendUint(2, 8).AppendBytes(h), true)}, ref.BocVariant{}))
+		if err != nil {
+			return nil, errNoSuchLibrary
+		}
+		return cells[0], nil
+	}
 	if l.tree != nil {
 		if c := (&sweepRun{}).tongo(l.tree); c != nil {
 			return c, nil
